@@ -1,0 +1,13 @@
+//go:build verif
+
+package verifhooks
+
+import (
+	"net/http"
+
+	"github.com/sourcegraph/zoekt"
+	zjson "github.com/sourcegraph/zoekt/internal/json"
+)
+
+// JSONServer is internal/json.JSONServer (the /search and /list JSON API handlers).
+func JSONServer(s zoekt.Searcher) http.Handler { return zjson.JSONServer(s) }
